@@ -395,8 +395,20 @@ func (h *Hist) Step() {
 		h.Feat["flushrevert"] = true
 	case 25:
 		if name != "" {
-			e.CollWrite(name)
-			h.Feat["collwrite"] = true
+			wrote := false
+			for i, sn := range e.Snaps {
+				// Write() through a snapshot's handle: refused or not, it must leave the file alone
+				if !sn.Closed && r.P(50) {
+					e.SnapCollWrite(i, name)
+					h.Feat["snap-collwrite"] = true
+					wrote = true
+					break
+				}
+			}
+			if !wrote {
+				e.CollWrite(name)
+				h.Feat["collwrite"] = true
+			}
 		}
 	case 26:
 		e.Close()
